@@ -4,6 +4,8 @@ From Coq Require Import List String ZArith Bool Ascii Arith Lia.
 From Cog Require Import Model.IR Model.Json Model.GoSemBase Model.GoSemValidate Model.Src Model.FrontEnd Model.FrontEndSpec
   Model.FrontEndSpecOA.
 From Cog Require Import Proofs.FrontEndLemmas Proofs.FrontEndOADec.
+Require Cog.Proofs.FrontEndAccept.
+Import FEDec.
 Import ListNotations.
 Local Open Scope list_scope.
 Local Open Scope string_scope.
@@ -330,7 +332,7 @@ Lemma oa_width_range w : width_range OA w = if seqb w "int32" then int_range KIn
 Proof. reflexivity. Qed.
 
 (* ---------- constraints ---------- *)
-Lemma oa_cstr_flo op a b m e : parse_dec (dec_string a b) = Some (a, b) ->
+Lemma oa_cstr_flo op a b m e :
   cstr_holds_json (cstr op (dflo a b)) (JNum m e) =
   (let c := dec_compare (m, e) (a, b) in
    if seqb op ">=" then match c with Lt => false | _ => true end
@@ -338,7 +340,7 @@ Lemma oa_cstr_flo op a b m e : parse_dec (dec_string a b) = Some (a, b) ->
    else if seqb op "<=" then match c with Gt => false | _ => true end
    else if seqb op "<" then match c with Lt => true | _ => false end
    else false).
-Proof. intro H. unfold cstr_holds_json, cstr, dflo. cbn [c_args c_op dyn_num]. rewrite H. reflexivity. Qed.
+Proof. apply FrontEndAccept.cstr_num_val. Qed.
 Lemma oa_cstr_int op g z m e :
   cstr_holds_json (cstr op (DInt g (z * 10 ^ 0))) (JNum m e) =
   (let c := dec_compare (m, e) (z, 0%Z) in
@@ -353,16 +355,11 @@ Definition oa_not_both {A} (a b : option A) : bool := negb (match a, b with Some
 
 Lemma oa_float_bounds_agree ge gt le lt m e :
   oa_not_both ge gt = true -> oa_not_both le lt = true ->
-  obound_small ge = true -> obound_small gt = true -> obound_small le = true -> obound_small lt = true ->
   forallb (fun c => cstr_holds_json c (JNum m e)) (oa_lower false ge gt ++ oa_upper false le lt) = bounds_ok ge gt le lt (m, e).
 Proof.
-  intros N1 N2 H1 H2 H3 H4. unfold oa_lower, oa_upper, bounds_ok, opt_ok.
+  intros N1 N2. unfold oa_lower, oa_upper, bounds_ok, opt_ok.
   destruct ge as [[a1 b1]|], gt as [[a2 b2]|], le as [[a3 b3]|], lt as [[a4 b4]|]; try discriminate;
-    cbn [obound_small] in *; cbn [app forallb fst snd];
-    try (rewrite (oa_cstr_flo ">=" a1 b1) by (apply (oa_roundtrip_small (a1, b1)); assumption));
-    try (rewrite (oa_cstr_flo ">" a2 b2) by (apply (oa_roundtrip_small (a2, b2)); assumption));
-    try (rewrite (oa_cstr_flo "<=" a3 b3) by (apply (oa_roundtrip_small (a3, b3)); assumption));
-    try (rewrite (oa_cstr_flo "<" a4 b4) by (apply (oa_roundtrip_small (a4, b4)); assumption));
+    cbn [app forallb fst snd]; rewrite ?oa_cstr_flo;
     cbv zeta; cbn [seqb String.eqb Ascii.eqb Bool.eqb];
     repeat match goal with |- context [dec_compare ?x ?y] => destruct (dec_compare x y) end; reflexivity.
 Qed.
@@ -407,12 +404,14 @@ Qed.
 (* ---------- constants ---------- *)
 Lemma oa_json_eq_str s j : json_eq (JStr s) j = const_matches (DStr s) j.
 Proof. destruct j; unfold json_eq; simpl; try reflexivity. destruct (num_norm m e); reflexivity. Qed.
-Lemma oa_json_eq_num m j : json_eq (JNum m 0) j = const_matches (dflo m 0) j.
+Lemma oa_dec_string_int m e : (0 <= e)%Z -> dec_string m e = z_string (m * 10 ^ e).
+Proof. intro H. unfold dec_string. apply Z.leb_le in H. rewrite H. reflexivity. Qed.
+Lemma oa_json_eq_num m e j : (0 <= e)%Z -> json_eq (JNum m e) j = const_matches (dflo m e) j.
 Proof.
-  unfold dflo.
-  destruct j; unfold json_eq; simpl; try (destruct (num_norm m 0); reflexivity).
-  rewrite oa_roundtrip_dec0.
-  unfold num_eqb. destruct (num_norm m 0), (num_norm m0 e). reflexivity.
+  intro H. unfold dflo. rewrite (oa_dec_string_int m e H).
+  destruct j; unfold json_eq; cbn [canon const_matches json_eqb]; try (destruct (num_norm m e); reflexivity).
+  rewrite oa_roundtrip_int.
+  unfold num_eqb. rewrite (num_norm_value m e H). destruct (num_norm m e), (num_norm m0 e0). reflexivity.
 Qed.
 
 Definition oa_enum_val_ok (v : json) : bool := match v with JStr _ => true | JNum _ e => Z.leb 0 e | _ => false end.
@@ -426,22 +425,20 @@ Proof.
   destruct X as [X|X]; rewrite forallb_forall in X; specialize (X v I); destruct v; simpl in *; auto; discriminate.
 Qed.
 
-Lemma oa_enum_member_agree et v j : oa_enum_val_ok v = true -> const_plain v = true ->
+Lemma oa_enum_member_agree et v j : oa_enum_val_ok v = true ->
   const_matches (ev_value (oa_enum_member et v)) j = json_eq v j.
 Proof.
-  destruct v; simpl; intros H1 H2; try discriminate.
-  - apply Z.eqb_eq in H2. subst e. rewrite (oa_json_eq_num m j). reflexivity.
+  destruct v; cbn [oa_enum_val_ok oa_enum_member ev_value]; intros H1; try discriminate.
+  - apply Z.leb_le in H1. rewrite (oa_json_eq_num m e j H1). reflexivity.
   - rewrite oa_json_eq_str. reflexivity.
 Qed.
 
 Lemma oa_enum_agree ctx vals j :
-  (forall v, In v vals -> oa_enum_val_ok v = true) -> forallb const_plain vals = true ->
+  (forall v, In v vals -> oa_enum_val_ok v = true) ->
   in_list j vals = oa_alt_check ctx j (oa_enum vals).
 Proof.
-  intros H1 H2. unfold oa_enum, in_list. cbn [oa_alt_check]. rewrite oa_existsb_map.
-  apply oa_existsb_ext_in. intros v I. symmetry. apply oa_enum_member_agree.
-  - apply (H1 v I).
-  - rewrite forallb_forall in H2. apply H2. exact I.
+  intros H1. unfold oa_enum, in_list. cbn [oa_alt_check]. rewrite oa_existsb_map.
+  apply oa_existsb_ext_in. intros v I. symmetry. apply oa_enum_member_agree. apply (H1 v I).
 Qed.
 
 Lemma oa_json_eq_null v : oa_enum_val_ok v = true -> json_eq v JNull = false.
@@ -452,7 +449,7 @@ Qed.
 
 (* ---------- the types inside a well-formed schema ---------- *)
 Definition oa_good (s : src_schema) (t : src_ty) : Prop :=
-  oa_supported t = true /\ ty_wf (src_defs s) t = true /\ ty_small t = true /\
+  oa_supported t = true /\ ty_wf (src_defs s) t = true /\
   forallb (fun n => str_in n (map fst (src_defs s))) (refs_of t) = true.
 Definition oa_nonref (t : src_ty) : bool := match t with SRef _ => false | _ => true end.
 
@@ -463,8 +460,6 @@ Proof. intro H. unfold scalar_accepts. rewrite H. reflexivity. Qed.
 Section OaCtx.
   Variable s : src_schema.
   Hypothesis W : src_wf_oa s = true.
-  Hypothesis SM : schema_bounds_small s = true.
-  Hypothesis AR : schema_aliases_resolve s = true.
   Local Notation defs := (src_defs s).
   Local Notation pkg := (src_pkg s).
   Local Notation ctx := (parse_ctx_oa s).
@@ -473,8 +468,7 @@ Section OaCtx.
   Lemma oa_good_def k t : In (k, t) defs -> oa_good s t.
   Proof.
     intro I. destruct (src_wf_oa_parts s W) as [_ [_ ALL]]. destruct (ALL k t I) as [A [B D]].
-    unfold schema_bounds_small in SM. rewrite forallb_forall in SM. repeat split; auto.
-    apply (SM _ I).
+    repeat split; auto.
   Qed.
 
   Lemma oa_locate_ok m t : src_lookup defs m = Some t -> locate_object ctx pkg m = Some (oa_obj_of pkg m t).
@@ -514,13 +508,21 @@ Section OaCtx.
       intro F. cbn [plus oa_ty]. rewrite oa_alts_ref. rewrite (oa_locate_ok name t' L). cbn [oa_obj_of o_type]. apply K2.
   Qed.
 
-  Lemma oa_resolve_total t : oa_good s t -> exists rt, src_resolve defs fuel t = Some rt.
+  (* alias cycles: src_resolve fails within its fuel iff it fails with every fuel (FrontEndAccept.resolve_stable), and
+     then the IR side has no alternative at all: both sides reject *)
+  Lemma oa_none_alts : forall F t, src_resolve defs F t = None -> alternatives ctx F (oa_ty pkg t) = [].
   Proof.
-    intro G. destruct t; try (eexists; reflexivity).
-    destruct G as [_ [_ [_ G]]]. cbn [refs_of forallb] in G. rewrite andb_true_r in G.
-    apply str_in_In in G. apply in_map_iff in G. destruct G as [[k t] [E I]]. simpl in E. subst k.
-    unfold schema_aliases_resolve in AR. rewrite forallb_forall in AR. specialize (AR _ I). cbn [fst] in AR.
-    destruct (src_resolve defs fuel (SRef name)) as [rt|]; [|discriminate]. exists rt. reflexivity.
+    induction F as [|F IH]; intros t R; [reflexivity|].
+    destruct t; simpl in R; try discriminate.
+    cbn [oa_ty]. rewrite oa_alts_ref.
+    destruct (src_lookup defs name) as [t'|] eqn:L.
+    - rewrite (oa_locate_ok name t' L). cbn [oa_obj_of o_type]. apply IH. exact R.
+    - destruct (src_wf_oa_parts s W) as [SUP _]. rewrite (oa_locate_parse s name SUP), L. reflexivity.
+  Qed.
+  Lemma oa_alts_none t F : src_resolve defs fuel t = None -> alternatives ctx F (oa_ty pkg t) = [].
+  Proof.
+    intro R. apply oa_none_alts. destruct (src_resolve defs F t) as [rt|] eqn:RF; auto.
+    apply FrontEndAccept.resolve_stable in RF. congruence.
   Qed.
 
   (* the alternatives of a resolved (reference-free at the top) type *)
@@ -555,13 +557,12 @@ Section OaCtx.
       destruct t'; try discriminate. destruct fs; reflexivity.
   Qed.
 
-  Lemma oa_alts_enough t F : oa_good s t -> (List.length defs + 4 <= F)%nat ->
-    exists rt, src_resolve defs fuel t = Some rt /\ oa_good s rt /\ oa_nonref rt = true /\
-               alternatives ctx F (oa_ty pkg t) = oa_alts_nr rt.
+  Lemma oa_alts_enough t F rt : oa_good s t -> (List.length defs + 4 <= F)%nat -> src_resolve defs fuel t = Some rt ->
+    oa_good s rt /\ oa_nonref rt = true /\ alternatives ctx F (oa_ty pkg t) = oa_alts_nr rt.
   Proof.
-    intros G HF. destruct (oa_resolve_total t G) as [rt R]. exists rt.
+    intros G HF R.
     destruct (oa_resolve_good _ _ _ G R) as [G' NR].
-    split; [exact R|]. split; [exact G'|]. split; [exact NR|].
+    split; [exact G'|]. split; [exact NR|].
     destruct (oa_resolve_alts _ _ _ R) as [k [K1 K2]].
     replace F with (k + S (S (S (F - k - 3))))%nat by lia.
     rewrite K2. apply oa_alts_nonref; auto.
@@ -584,6 +585,11 @@ Section OaCtx.
   Proof.
     intro A. rewrite ir_accepts_n_unfold, A, oa_ty_nullable, andb_false_r. cbn [orb].
     apply oa_existsb_ext_in. intros alt I. rewrite (oa_alts_nr_nonnull rt alt I), andb_false_r. reflexivity.
+  Qed.
+
+  Lemma oa_accepts_none j t : src_resolve defs fuel t = None -> ir_accepts_n ctx j (oa_ty pkg t) = false.
+  Proof.
+    intro R. rewrite ir_accepts_n_unfold, (oa_alts_none t _ R), oa_ty_nullable, andb_false_r. reflexivity.
   Qed.
 
   (* ---------- the main induction ---------- *)
@@ -635,29 +641,25 @@ Section OaCtx.
         rewrite (oa_int_bounds_agree ge gt le lt m e N1 N2).
         cbn [json_ints_int64] in HI. destruct (is_integral m e); cbn [negb orb andb] in *; [rewrite HI|]; reflexivity.
     - (* number *)
-      destruct G as [G [_ [G3 _]]]. cbn [oa_supported] in G. apply andb_true_iff in G. destruct G as [N1 N2].
-      cbn [ty_small] in G3.
-      apply andb_true_iff in G3. destruct G3 as [G3 S4]. apply andb_true_iff in G3. destruct G3 as [G3 S3].
-      apply andb_true_iff in G3. destruct G3 as [S1 S2].
+      destruct G as [G _]. cbn [oa_supported] in G. apply andb_true_iff in G. destruct G as [N1 N2].
       cbn [oa_ty oa_alt_check].
       destruct (seqb w "float32"); (destruct j; try reflexivity); cbn [oa_sv_simple];
         rewrite ?oa_scalar_float32, ?oa_scalar_float64;
-        rewrite (oa_float_bounds_agree ge gt le lt m e N1 N2 S1 S2 S3 S4); reflexivity.
+        rewrite (oa_float_bounds_agree ge gt le lt m e N1 N2); reflexivity.
     - destruct j; try reflexivity.
       cbn [oa_sv_simple oa_ty oa_alt_check]. rewrite oa_scalar_string. rewrite oa_lengths_agree. reflexivity.
     - destruct j; try reflexivity.
       cbn [oa_sv_simple oa_ty oa_alt_check]. rewrite oa_scalar_datetime. reflexivity.
     - destruct j; reflexivity.
     - (* const = one-member enum *)
-      destruct G as [G1 [_ [G3 _]]]. cbn [ty_small] in G3.
+      destruct G as [G1 _].
       assert (E : forall j0, oa_sv_simple defs j0 (SConst cv) = in_list j0 [cv]).
       { intro j0. unfold in_list. cbn [existsb]. rewrite orb_false_r. destruct j0; reflexivity. }
       rewrite E. cbn [oa_ty]. apply oa_enum_agree.
-      + intros v [<-|[]]. destruct cv; try discriminate; auto.
-      + cbn [forallb]. rewrite G3. reflexivity.
-    - destruct G as [G1 [_ [G3 _]]]. cbn [ty_small] in G3. cbn [oa_supported] in G1.
+      intros v [<-|[]]. destruct cv; try discriminate; auto.
+    - destruct G as [G1 _]. cbn [oa_supported] in G1.
       assert (E : forall j0, oa_sv_simple defs j0 (SEnum vals) = in_list j0 vals) by (intro j0; destruct j0; reflexivity).
-      rewrite E. cbn [oa_ty]. apply oa_enum_agree; [apply oa_enum_ok_all|]; assumption.
+      rewrite E. cbn [oa_ty]. apply oa_enum_agree. apply oa_enum_ok_all. assumption.
     - destruct j; try reflexivity. cbn [oa_sv_simple oa_ty oa_alt_check].
       apply oa_forallb_ext_in. intros x I. cbn [oa_kids] in K. rewrite Forall_forall in K. apply (K x I). exact G.
     - destruct j; try reflexivity. cbn [oa_sv_simple oa_ty oa_alt_check].
@@ -673,7 +675,7 @@ Section OaCtx.
     src_valid OA defs JNull t = match src_resolve defs fuel t with Some SAny => true | _ => false end.
   Proof.
     intro G. rewrite oa_src_valid_unfold. unfold oa_sv_body.
-    destruct (oa_resolve_total t G) as [rt R]. rewrite R.
+    destruct (src_resolve defs fuel t) as [rt|] eqn:R; [|reflexivity].
     destruct (oa_resolve_good _ _ _ G R) as [G' NR].
     destruct rt; try reflexivity.
     - cbn [oa_sv_simple]. apply oa_json_eq_null. destruct G' as [G1 _]. destruct v; try discriminate; auto.
@@ -724,10 +726,9 @@ Section OaCtx.
 
   Lemma oa_good_struct_fields fs f : oa_good s (SStruct fs) -> In f fs -> oa_fld_ok f.
   Proof.
-    intros [G1 [G2 [G4 G5]]] I.
+    intros [G1 [G2 G5]] I.
     apply oa_supported_struct in G1. destruct G1 as [_ G1]. destruct (G1 f I) as [A1 A2].
     cbn [ty_wf] in G2. apply andb_true_iff in G2. destruct G2 as [_ G2]. rewrite forallb_forall in G2.
-    cbn [ty_small] in G4. rewrite forallb_forall in G4.
     cbn [refs_of] in G5. rewrite forallb_forall in G5.
     split; [|assumption].
     repeat split; auto.
@@ -747,9 +748,9 @@ Section OaCtx.
     apply oa_field_agree; auto. apply (oa_good_struct_fields (f0 :: fr)); assumption.
   Qed.
 
-  Lemma oa_good_simple b : is_simple_branch b = true -> oa_supported b = true -> ty_small b = true -> oa_good s b.
+  Lemma oa_good_simple b : is_simple_branch b = true -> oa_supported b = true -> oa_good s b.
   Proof.
-    intros H O T. unfold oa_good. destruct b; try discriminate; try (repeat split; auto; fail).
+    intros H O. unfold oa_good. destruct b; try discriminate; try (repeat split; auto; fail).
     destruct b; try discriminate; repeat split; auto.
   Qed.
 
@@ -780,12 +781,11 @@ Section OaCtx.
       apply oa_struct_agree; auto.
     - (* union *)
       cbn [oa_alts_nr]. rewrite oa_existsb_map. apply oa_existsb_ext_in. intros b I.
-      pose proof G as [G1 [G2 [G4 G5]]].
+      pose proof G as [G1 [G2 G5]].
       cbn [ty_wf] in G2. rewrite forallb_forall in G2. destruct (oa_simple_branch_kind b (G2 b I)) as [SK NB].
       rewrite (oa_resolve_nonref _ b NB). apply oa_simple_agree; auto.
       apply oa_good_simple; auto.
-      + cbn [oa_supported] in G1. apply andb_true_iff in G1. destruct G1 as [_ G1]. rewrite forallb_forall in G1. auto.
-      + cbn [ty_small] in G4. rewrite forallb_forall in G4. auto.
+      cbn [oa_supported] in G1. apply andb_true_iff in G1. destruct G1 as [_ G1]. rewrite forallb_forall in G1. auto.
     - (* discriminated union *)
       cbn [oa_alts_nr]. rewrite oa_existsb_flat_map.
       pose proof G as [_ [G2 _]]. cbn [ty_wf] in G2. rewrite forallb_forall in G2.
@@ -814,8 +814,10 @@ Section OaCtx.
   Proof.
     assert (X : forall j, oa_kids j -> json_ints_int64 j = true -> oa_Pk j).
     { intros j K HI t G. rewrite oa_src_valid_unfold. unfold oa_sv_body.
-      destruct (oa_alts_enough t (alt_fuel ctx) G) as [rt [R [G' [NR A]]]]; [rewrite oa_alt_fuel_eq; lia|].
-      rewrite (oa_accepts_alts j t rt A). rewrite R. apply oa_resolved_agree; auto. }
+      destruct (src_resolve defs fuel t) as [rt|] eqn:R.
+      - destruct (oa_alts_enough t (alt_fuel ctx) rt G) as [G' [NR A]]; [rewrite oa_alt_fuel_eq; lia|exact R|].
+        rewrite (oa_accepts_alts j t rt A). apply oa_resolved_agree; auto.
+      - symmetry. apply (oa_accepts_none j t R). }
     induction j using oa_json_ind; intros HI; apply X; auto; try exact I.
     - cbn [oa_kids]. cbn [json_ints_int64] in HI. rewrite forallb_forall in HI. rewrite Forall_forall in *.
       intros x Ix. apply H; auto.
@@ -824,24 +826,31 @@ Section OaCtx.
   Qed.
 End OaCtx.
 
-(* The two extra decidable hypotheses are those of the JSON Schema theorem (Model/FrontEndSpec.v):
-     schema_bounds_small s    : bounds (m, e) of a `number` with -10000 <= m <= 10000, -3 <= e <= 0 (the IR keeps them as
-                                text; printing/parsing round trip by enumeration, lemma oa_roundtrip_small); numeric
-                                constants / enum values written without exponent (any size: lemma oa_roundtrip_int)
-     schema_aliases_resolve s : every definition name resolves through aliases within src_valid's fuel (no alias cycle) *)
-Lemma parse_openapi_preserves_acceptance_partial :
-  forall s tname d, src_wf_oa s = true -> schema_bounds_small s = true -> schema_aliases_resolve s = true ->
+(* parse_openapi_preserves_acceptance_partial without any extra hypothesis.
+   Bounds of a `number` are unrestricted (FEDec.dec_roundtrip through FrontEndAccept.cstr_num_val), numeric constants / enum
+   values may carry an exponent >= 0 (oa_roundtrip_int + FEDec.num_norm_value), alias cycles are rejected by both sides
+   (FrontEndAccept.resolve_stable / oa_alts_none). *)
+Lemma parse_openapi_preserves_acceptance_partial_strong :
+  forall s tname d, src_wf_oa s = true ->
     json_wf d = true -> json_ints_int64 d = true ->
     str_in tname (map fst (src_defs s)) = true -> oa_acceptance_agrees s tname d = true.
 Proof.
-  intros s tname d W SM AR WF HI IN.
+  intros s tname d W WF HI IN.
   unfold oa_acceptance_agrees, src_valid_doc, ir_accepts_n_doc.
   assert (G : oa_good s (SRef tname)).
   { unfold oa_good. repeat split; auto. cbn [refs_of forallb]. rewrite IN. reflexivity. }
-  pose proof (oa_main_agree s W SM AR d HI (SRef tname) G) as E.
+  pose proof (oa_main_agree s W d HI (SRef tname) G) as E.
   change (oa_ty (src_pkg s) (SRef tname)) with (TRef attrs0 (src_pkg s) tname) in E. unfold OA in E.
   destruct d; try reflexivity; rewrite E; apply eqb_reflx.
 Qed.
 
+(* the first proved form (schema_bounds_small s and schema_aliases_resolve s are no longer needed): kept under its name *)
+Lemma parse_openapi_preserves_acceptance_partial :
+  forall s tname d, src_wf_oa s = true -> schema_bounds_small s = true -> schema_aliases_resolve s = true ->
+    json_wf d = true -> json_ints_int64 d = true ->
+    str_in tname (map fst (src_defs s)) = true -> oa_acceptance_agrees s tname d = true.
+Proof. intros s tname d W _ _. apply parse_openapi_preserves_acceptance_partial_strong; assumption. Qed.
+
 Print Assumptions parse_openapi_keeps_constraints_partial.
+Print Assumptions parse_openapi_preserves_acceptance_partial_strong.
 Print Assumptions parse_openapi_preserves_acceptance_partial.
